@@ -23,8 +23,10 @@ def _owned_by(key, owner):
 
 
 class Pair:
-    def __init__(self, fn):
+    def __init__(self, fn, acq=ACQ_HEAP):
         self.fn = fn
+        self.acq = tuple(acq)            # heap allocators, closed over wrappers that return the block they acquired
+        self.returns_owned = False       # some return hands a live block to the caller: fn is itself an allocator
         self.acq_sites = {}
         self.leaks = []
         self._solve()
@@ -36,7 +38,7 @@ class Pair:
             k = kind(x)
             if k == "assign" and x[1] == "=":
                 rhs = strip(x[3])
-                if kind(rhs) == "call" and callee_name(rhs) in ACQ_HEAP:
+                if kind(rhs) == "call" and callee_name(rhs) in self.acq:
                     key = _key(x[2])
                     live.add(key)
                     self.acq_sites[key] = rhs[2]
@@ -56,7 +58,7 @@ class Pair:
                         self.acq_sites[_key(x[2])] = self.acq_sites.get(rk, "?")
             elif k == "decl" and x[2] is not None:
                 rhs = strip(x[2])
-                if kind(rhs) == "call" and callee_name(rhs) in ACQ_HEAP:
+                if kind(rhs) == "call" and callee_name(rhs) in self.acq:
                     live.add(x[1])
                     self.acq_sites[x[1]] = rhs[2]
                 elif kind(rhs) == "call" and callee_name(rhs) == ACQ_CP:
@@ -85,6 +87,8 @@ class Pair:
                     live = {k2 for k2 in live if not _owned_by(k2, key)}
         if kind(e) == "return" and e[1] is not None:
             rk = _key(e[1])
+            if any(_owned_by(k2, rk) and not k2.startswith(("pending:", "checkpoint:")) for k2 in live):
+                self.returns_owned = True
             live = {k2 for k2 in live if not _owned_by(k2, rk)}
         return live
 
@@ -169,18 +173,42 @@ class Pair:
                     self.leaks.append((None, sorted(live)))
 
 
+def _scope(f):
+    return bool(f.blocks) and f.file.startswith("src/") and not f.file.endswith("tests_impl.h") and f.name != "checked_malloc" \
+        and not f.file.startswith(("src/bench", "src/tests", "src/testrand", "src/unit_test"))
+
+
+def allocators(prog):
+    """ACQ_HEAP closed over wrappers: a function that returns a block it acquired (on some path) is an allocator for its
+    callers, so that moving `malloc + NULL check` into a static helper does not hide the callers' exits from the rule."""
+    acq = set(ACQ_HEAP)
+    for _ in range(4):
+        added = False
+        for f in prog.functions.values():
+            if not _scope(f) or f.name in acq or "*" not in (f.ret or ""):
+                continue
+            if not any(callee_name(c) in acq for el, c in f.all_calls()):
+                continue
+            if Pair(f, acq).returns_owned:
+                acq.add(f.name)
+                added = True
+        if not added:
+            break
+    return tuple(sorted(acq))
+
+
 def obligations(prog):
     obs = []
     nfun = 0
+    acq_all = allocators(prog)
     for f in sorted(prog.functions.values(), key=lambda x: x.name):
-        if not f.blocks or not f.file.startswith("src/") or f.file.endswith("tests_impl.h") or f.name == "checked_malloc" \
-                or f.file.startswith(("src/bench", "src/tests", "src/testrand", "src/unit_test")):
+        if not _scope(f):
             continue
-        acq = any(callee_name(c) in ACQ_HEAP + (ACQ_CP,) for el, c in f.all_calls())
+        acq = any(callee_name(c) in acq_all + (ACQ_CP,) for el, c in f.all_calls())
         if not acq:
             continue
         nfun += 1
-        p = Pair(f)
+        p = Pair(f, acq_all)
         props = {"C07"}
         if "bppp" in f.file:
             props.add("C19")
@@ -203,7 +231,7 @@ def obligations(prog):
                                   props=props))
     if nfun < 6:
         raise AnalysisBroken("R-PAIR: only %d acquiring functions found (floor 6)" % nfun)
-    return obs, {"acquiring_functions": nfun}
+    return obs, {"acquiring_functions": nfun, "allocators": [a for a in acq_all if a not in ACQ_HEAP]}
 
 
 if __name__ == "__main__":
